@@ -601,6 +601,7 @@ func (f *frame) enterLoop(li *loopInfo, predIdx []int, conds []string) {
 	li.entrySt = f.st
 	// init obligations: invariants with the entry values
 	entryVals := map[*ssa.Phi]string{}
+	li.entryVals = entryVals
 	var phis []*ssa.Phi
 	for _, ins := range b.Instrs {
 		phi, ok := ins.(*ssa.Phi)
@@ -632,6 +633,13 @@ func (f *frame) enterLoop(li *loopInfo, predIdx []int, conds []string) {
 		}
 		if !nonFresh["*"] {
 			f.assumeFreshOnly(pre, f.st, mods, nonFresh)
+		}
+	}
+	// loop-level modifies clause: objects not listed (and allocated before the loop) keep their contents
+	if li.spec != nil && li.spec.HasMod && !mods["*"] {
+		env := f.loopEnv(li, pre, entryVals)
+		for _, fm := range f.frameCondsItems(li.spec.Modifies, env, pre, f.st, mods) {
+			f.assume(fm.formula)
 		}
 	}
 	cur := map[*ssa.Phi]string{}
@@ -802,6 +810,16 @@ func (f *frame) backEdge(li *loopInfo, from *ssa.BasicBlock, succIdx int) {
 	st := f.blkSt[from]
 	for _, inv := range f.loopInvariants(li, phis) {
 		f.obligeAt(cond, "inv-step", inv.label, inv.props, inv.at(st, vals), from.Instrs[len(from.Instrs)-1].Pos())
+	}
+	if li.spec != nil && li.spec.HasMod {
+		mods := f.modsInLoop(li)
+		if !mods["*"] {
+			env := f.loopEnv(li, li.entrySt, li.entryVals)
+			for _, fm := range f.frameCondsItems(li.spec.Modifies, env, li.entrySt, st, mods) {
+				o := f.obligeAt(cond, "loop-frame", fmt.Sprintf("L%d.%s", li.ordinal, fm.heap), nil, fm.formula, from.Instrs[len(from.Instrs)-1].Pos())
+				o.Src = "loop modifies clause: only the listed objects (or objects allocated in the loop) change in heap " + fm.heap
+			}
+		}
 	}
 	if li.spec != nil && li.spec.Decreases != nil {
 		env := f.loopEnv(li, st, vals)
